@@ -17,6 +17,8 @@ def modelLettersX : XKind → Option (List Char)
   | .tspan => none | .tstamp => none | .sensitive => none
   | .typ => some ['s', 'p']
   | .obj => some ['a', 'h', 's', 'p']
+  | .talias => none
+  | .otype => some ['s', 'p']
 
 def acceptsX (k : XKind) (c : Char) : Bool :=
   match modelLettersX k with
@@ -31,7 +33,7 @@ theorem acceptsX_old (k : Kind) (c : Char) : acceptsX k.x c = accepts k c := by
 def modelFlagged : XKind → List Char
   | .int => ['c', 's'] | .float => ['p', 's'] | .str => ['s', 'p', 'c', 'C', 'u', 'd', 't']
   | .bool => ['t', 'T', 'y', 'Y', 's', 'p'] | .bin => ['s', 'p', 'b', 'B', 'u', 't', 'T'] | .dflt => ['d', 's', 'p', 'D']
-  | .semver => ['s', 'p'] | .uri => ['s', 'p'] | .semverRange => ['p', 's'] | .typ => ['s', 'p']
+  | .semver => ['s', 'p'] | .uri => ['s', 'p'] | .semverRange => ['p', 's'] | .typ => ['s', 'p'] | .otype => ['s', 'p']
   | _ => []
 
 /-- kinds whose function applies the string flags whatever the letter -/
@@ -99,7 +101,7 @@ theorem fmtSemVerRange_of_not_accepts (f : Fmt) (t n : Str) (h : acceptsX .semve
 /-! ### the side condition on the regenerated table, every kind -/
 
 def allXKinds : List XKind := [.int, .float, .str, .bool, .undef, .dflt, .bin, .regexp, .arr, .hash,
-  .semver, .semverRange, .uri, .tspan, .tstamp, .sensitive, .typ, .obj]
+  .semver, .semverRange, .uri, .tspan, .tstamp, .sensitive, .typ, .obj, .talias, .otype]
 
 theorem allXKinds_complete (k : XKind) : k ∈ allXKinds := by cases k <;> simp [allXKinds]
 
@@ -302,6 +304,13 @@ theorem bind_text_no_fault (r : Res) (g : Str → Str) (h : ∀ k, r ≠ .fault 
   | reported c => simp [Res.bind]
   | fault e => exact absurd rfl (h e)
 
+theorem bind_no_fault (r : Res) (g : Str → Res) (h1 : ∀ k, r ≠ .fault k) (h2 : ∀ s k, g s ≠ .fault k) (k : FaultKind) :
+    r.bind g ≠ .fault k := by
+  cases r with
+  | text s => simpa [Res.bind] using h2 s k
+  | reported c => simp [Res.bind]
+  | fault e => exact absurd rfl (h1 e)
+
 mutual
 theorem noFaultX {κ : Type} (ks : KeySys κ) (io : FloatIO) :
     ∀ (v : XVal) (m : GMap κ) (ind : Ind), AllGoOKG m → ∀ k, fmtX ks io m ind v ≠ .fault k
@@ -333,6 +342,22 @@ theorem noFaultX {κ : Type} (ks : KeySys κ) (io : FloatIO) :
       split
       · simp
       · exact arrayOf_no_fault _ _ _ (noFaultX_elems ks io (p :: ps) m _ _ h (cfOfG_goOK ks m h _)) k'
+  | .talias name r, m, ind, h, k => by
+    simp only [fmtX]
+    split
+    · simp
+    · split
+      · simp
+      · exact bind_text_no_fault _ _ (noFaultX ks io r m ind h) k
+  | .otype name ih, m, ind, h, k => by
+    simp only [fmtX]
+    split
+    · simp
+    · apply typeFinish_no_fault
+      intro k'
+      split
+      · simp
+      · exact bind_text_no_fault _ _ (noFaultX_otypeEntries ks io ih m _ _ _ _ _ h (cfOfG_goOK ks m h _)) k'
   | .obj name es, m, ind, h, k => by
     simp only [fmtX]
     apply bind_text_no_fault
@@ -358,6 +383,44 @@ theorem noFaultX {κ : Type} (ks : KeySys κ) (io : FloatIO) :
     · split
       · simp
       · exact hashOf_no_fault _ _ _ _ (noFaultX_pairs ks io es m _ _ h (cfOfG_goOK ks m h _)) k
+
+theorem noFaultX_otypeEntries {κ : Type} (ks : KeySys κ) (io : FloatIO) :
+    ∀ (es : List OEntry) (m cf : GMap κ) (f : Fmt) (i2 i3 : Ind) (first : Bool), AllGoOKG m → AllGoOKG cf →
+      ∀ k, otypeEntries ks io m cf f i2 i3 first es ≠ .fault k
+  | [], m, cf, f, i2, i3, first, _, _, k => by simp [otypeEntries]
+  | .plain key v :: rest, m, cf, f, i2, i3, first, hm, hcf, k => by
+    simp only [otypeEntries]
+    have hrest := noFaultX_otypeEntries ks io rest m cf f i2 i3 false hm hcf
+    refine bind_no_fault _ _ ?_ ?_ k
+    · intro k'
+      by_cases hc : v.isContainer = true
+      · simp only [hc, if_true]; exact noFaultX ks io v m i2 hm k'
+      · simp only [hc]; exact noFaultX ks io v cf i2 hcf k'
+    · intro sv k'
+      refine bind_no_fault _ _ hrest ?_ k'
+      intro sr k''
+      simp
+  | .members key ms :: rest, m, cf, f, i2, i3, first, hm, hcf, k => by
+    simp only [otypeEntries]
+    have hrest := noFaultX_otypeEntries ks io rest m cf f i2 i3 false hm hcf
+    refine bind_no_fault _ _ (noFaultX_otypeMembers ks io ms m f i3 true hm) ?_ k
+    intro sv k'
+    refine bind_no_fault _ _ hrest ?_ k'
+    intro sr k''
+    simp
+
+theorem noFaultX_otypeMembers {κ : Type} (ks : KeySys κ) (io : FloatIO) :
+    ∀ (es : List XEntry) (m : GMap κ) (f : Fmt) (i3 : Ind) (first : Bool), AllGoOKG m →
+      ∀ k, otypeMembers ks io m f i3 first es ≠ .fault k
+  | [], m, f, i3, first, _, k => by simp [otypeMembers]
+  | .mk kk v :: rest, m, f, i3, first, hm, k => by
+    simp only [otypeMembers]
+    have hrest := noFaultX_otypeMembers ks io rest m f i3 false hm
+    refine bind_no_fault _ _ (noFaultX ks io v m i3 hm) ?_ k
+    intro sv k'
+    refine bind_no_fault _ _ hrest ?_ k'
+    intro sr k''
+    simp
 
 theorem noFaultX_elems {κ : Type} (ks : KeySys κ) (io : FloatIO) :
     ∀ (vs : List XVal) (m cf : GMap κ) (ci : Ind), AllGoOKG m → AllGoOKG cf → NoFaultL (fmtElemsX ks io m cf ci vs)
